@@ -1872,9 +1872,10 @@ func (p *Parser) expect(kind TokenKind) {
 		p.advance()
 		return
 	}
-	// Handle >> splitting: when expecting >, accept >> and split it
-	if kind == TokenGreater && p.check(TokenGreaterGreater) {
-		p.splitGreaterGreater()
+	// A > is only ever expected as the closer of a template list: accept the first
+	// character of >>, >= and >>= too and split the token (WGSL template list discovery).
+	if kind == TokenGreater {
+		_ = p.expectTemplateClose()
 	}
 }
 
@@ -1883,10 +1884,10 @@ func (p *Parser) expectErr(kind TokenKind) *ParseError {
 		p.advance()
 		return nil
 	}
-	// Handle >> splitting: when expecting >, accept >> and split it
-	if kind == TokenGreater && p.check(TokenGreaterGreater) {
-		p.splitGreaterGreater()
-		return nil
+	// A > is only ever expected as the closer of a template list: accept the first
+	// character of >>, >= and >>= too and split the token (WGSL template list discovery).
+	if kind == TokenGreater {
+		return p.expectTemplateClose()
 	}
 	return &ParseError{
 		Message: fmt.Sprintf("expected %s, got %s", kind, p.peek().Kind),
